@@ -178,3 +178,62 @@ class AddFieldOverlapCheck:
         return other_field.start_at is None or not exists_range(
             min(start_at, unopt(other_field.start_at)), max(end_at, unopt(other_field.start_at) + n),
             lambda bit: start_at <= bit < end_at and unopt(other_field.start_at) <= bit < unopt(other_field.start_at) + n)
+
+
+# ---- BitField.__call__: one value checked, one value recorded (fragments of its second and third loop) -------------------------------
+from pyvc.values import TOpt, ListV, NONE   # noqa: E402,F401
+FIELD8 = TRec("Field", length=TOpt(TInt(1, 64)), start_at=TOpt(TInt(0, 63)), max_value=TInt(0, None))
+
+
+def _get_field8(E, obj, args, kwargs, st, node):
+    s = st.copy()
+    s.trace = ListV(s.trace.items + (("get_field", args[0]),))
+    return [(s, st.env["g_field"], None)]
+
+
+@contract("rig/bitfield.py::BitField.__call__@forbody:1")
+class CallChecksOneValue:
+    """one value of a call: refused (ValueError) exactly when it is negative or does not fit a field of fixed length; checking
+    records nothing - the field's largest value seen is untouched (values are recorded only after EVERY value of the call has
+    been accepted: the third loop)"""
+    properties = ("C08",)
+    params = dict(self=TRec("BitField", fields=TRec("Tree")), identifier=TInt(), value=TInt(), field_values=TInt(), g_field=FIELD8)
+    fragment_result = ("field",)
+    fragment_head = "for identifier, value in field_values.items():"
+    externals = {"Tree.get_field": _get_field8}
+    raises = {"ValueError": None}
+    options = {"no_merge": True}
+    assumptions = ["the field tree is opaque: get_field returns the ghost field record (length None = not yet sized)"]
+
+    def native(value):
+        raise __import__("pyvc.replay", fromlist=["OutsideHarness"]).OutsideHarness()
+
+    def raises_ValueError(value, g_field):
+        return value < 0 or (g_field.length is not None and value >= 2 ** unopt8(g_field.length))
+
+    def ensures_accepted_exactly_when_it_fits(value, g_field, identifier, field_values, _trace):
+        return (value >= 0 and (g_field.length is None or value < 2 ** unopt8(g_field.length))
+                and len(_trace) == 1 and _trace[0] == ("get_field", identifier))
+
+    def ensures_checking_records_nothing(g_field, result):
+        return result[0].max_value == g_field.max_value and result[0].length == g_field.length and result[0].start_at == g_field.start_at
+
+
+def unopt8(x):
+    return x
+
+
+@contract("rig/bitfield.py::BitField.__call__@forbody:2")
+class CallRecordsOneValue:
+    """after all values were accepted: the field's largest value seen becomes the larger of what it was and this value"""
+    properties = ("C08",)
+    params = dict(self=TRec("BitField", fields=TRec("Tree")), identifier=TInt(), value=TInt(0, None), field_values=TInt(), g_field=FIELD8)
+    fragment_result = ("field",)
+    fragment_head = "for identifier, value in field_values.items():"
+    externals = {"Tree.get_field": _get_field8}
+
+    def native(value):
+        raise __import__("pyvc.replay", fromlist=["OutsideHarness"]).OutsideHarness()
+
+    def ensures_largest_value_seen(value, g_field, result):
+        return result[0].max_value == max(g_field.max_value, value) and result[0].length == g_field.length
